@@ -91,12 +91,20 @@ psTls13Psk_t *tls13NewPsk(const unsigned char *key,
         if (params->sni != NULL && params->sniLen > 0)
         {
             psk->params->sni = psMalloc(keys->pool, params->sniLen);
+            if (psk->params->sni == NULL)
+            {
+                goto out_fail_params;
+            }
             Memcpy(psk->params->sni, params->sni, params->sniLen);
             psk->params->sniLen = params->sniLen;
         }
         if (params->alpn != NULL && params->alpnLen > 0)
         {
             psk->params->alpn = psMalloc(keys->pool, params->alpnLen);
+            if (psk->params->alpn == NULL)
+            {
+                goto out_fail_params;
+            }
             Memcpy(psk->params->alpn, params->alpn, params->alpnLen);
             psk->params->alpnLen = params->alpnLen;
         }
@@ -114,6 +122,14 @@ psTls13Psk_t *tls13NewPsk(const unsigned char *key,
 #endif
 
     return psk;
+
+out_fail_params:
+    psFree(psk->params->sni, keys->pool);
+    psFree(psk->params, keys->pool);
+    psFree(psk->pskKey, keys->pool);
+    psFree(psk->pskId, keys->pool);
+    psFree(psk, keys->pool);
+    return NULL;
 }
 
 void tls13AddPskToList(psTls13Psk_t **list,
